@@ -714,3 +714,68 @@ func refiled(c *core.Ctx, r *core.Report, rule string, run func(sub *core.Report
 		r.Obls = append(r.Obls, &o2)
 	}
 }
+
+// sorterSiteRules: every place that sequences participants through the ordering helper lies inside one of the three
+// routines whose decision tables decide what happens with the result - the post-processor bootstrap, the start
+// routine (runners) and a Configure implementation's Initialize (loaders).  A use anywhere else is a sequencing the
+// tables know nothing about.
+func sorterSiteRules(c *core.Ctx, r *core.Report, rule string) {
+	ro := c.Roles()
+	sites := c.CallSites(func(com *ssa.CallCommon) bool { return core.IsCallTo(com, ro.Sorter) })
+	r.Count("sorter_call_sites", len(sites))
+	r.Floor(rule, "sorter call sites", len(sites), 3)
+	decided := map[*ssa.Function]string{}
+	mark := func(root *ssa.Function, what string) {
+		seen := map[*ssa.Function]bool{}
+		reachesCall(root, func(*ssa.CallCommon) bool { return false }, seen)
+		for f := range seen {
+			if _, has := decided[f]; !has {
+				decided[f] = what
+			}
+		}
+	}
+	if bs, _ := findBootstrap(c); bs != nil {
+		mark(bs.fn, "bootstrap table")
+	}
+	for _, s := range lowestReaching(c, "app",
+		func(com *ssa.CallCommon) bool { return core.IsInvoke(com, ro.FRefresh) },
+		func(com *ssa.CallCommon) bool { return core.IsInvoke(com, ro.RunnerRun) }) {
+		mark(s, "run table")
+	}
+	for _, T := range c.Implementors(c.Iface("configure", "Configure")) {
+		if initFn := c.DeclaredMethod(T, "Initialize"); initFn != nil {
+			mark(initFn, "load table")
+		}
+	}
+	seen := map[string]int{}
+	for _, s := range sites {
+		fn := s.Parent()
+		what, ok := decided[fn]
+		if !ok {
+			what, ok = decided[core.TopLevel(fn)]
+		}
+		cons := "sorter-site@" + core.FnName(fn)
+		seen[cons]++
+		if seen[cons] > 1 {
+			cons = fmt.Sprintf("%s#%d", cons, seen[cons])
+		}
+		r.Check(ok, rule, cons, c.Pos(s.Pos()), "the ordering helper is used inside a routine whose decision table decides what is done with the sequence ("+what+")")
+	}
+}
+
+// notForwarders drops the invoke sites that sit in the same-named method of a type implementing the interface itself:
+// a participant that wraps another one and hands the call on is a participant, not the container's dispatch.
+func notForwarders(c *core.Ctx, sites []ssa.CallInstruction, iface *types.Interface, method string) []ssa.CallInstruction {
+	var out []ssa.CallInstruction
+	for _, s := range sites {
+		fn := core.TopLevel(s.Parent())
+		if iface != nil && fn.Signature.Recv() != nil && fn.Name() == method {
+			rt := fn.Signature.Recv().Type()
+			if types.Implements(rt, iface) || types.Implements(types.NewPointer(rt), iface) {
+				continue
+			}
+		}
+		out = append(out, s)
+	}
+	return out
+}
